@@ -12034,11 +12034,11 @@ Tree_get_verif_position(Tree *self)
     const tsk_tree_position_t *pos;
     const tsk_id_t *insertion;
 
-    if (guard == NULL || strcmp(guard, "1") != 0) {
-        PyErr_SetString(PyExc_RuntimeError, "verification hooks are disabled");
+    if (Tree_check_state(self) != 0) {
         goto out;
     }
-    if (Tree_check_state(self) != 0) {
+    if (guard == NULL || strcmp(guard, "1") != 0) {
+        PyErr_SetString(PyExc_RuntimeError, "verification hooks are disabled");
         goto out;
     }
     pos = &self->tree->tree_pos;
